@@ -313,6 +313,17 @@ func (i *interpreter) recordViolationInScope(label, msg string) {
 	for _, nd := range i.nondets {
 		var val uint64
 		if nd.Term != nil {
+			if nd.Bytes > 0 {
+				x := m[nd.Term.Name]
+				if x == nil {
+					x = new(big.Int)
+				}
+				for _, b := range expandWide(x, nd.Bytes) {
+					v.Names = append(v.Names, nd.Name)
+					v.Vector = append(v.Vector, b)
+				}
+				continue
+			}
 			if x := m[nd.Term.Name]; x != nil {
 				val = x.Uint64()
 			}
@@ -380,4 +391,11 @@ func init() {
 		}
 		externals[recv+"Seed"] = func(fr *frame, a []value) value { return nil }
 	}
+}
+
+// skipInits: package initialisers that only set up reflection-based helpers the engine
+// never uses (errors.As's errorType, unicode tables are data and are kept).
+var skipInits = map[string]bool{
+	"errors.init":  true,
+	"strconv.init": false,
 }
